@@ -82,3 +82,9 @@ Example C01_example :
         JObj [("$facet", JObj [("f", JArr [JObj [("$match", JObj [("name", JStr "R")])]])])];
         JObj [("$project", JObj [("x", JObj [("$or", JArr [JStr "R"; JStr "$a"])])])]].
 Proof. vm_compute. reflexivity. Qed.
+
+(* no bare-word entry at the top level of the tables that are consulted for every key: a user field is never
+   exempted because of its NAME (obligation on the regenerated tables) *)
+Theorem C01_no_bare_word_exemption : TablesOK.tables_ok_bare current = true.
+Proof. vm_compute. reflexivity. Qed.
+Print Assumptions C01_no_bare_word_exemption.
